@@ -149,10 +149,17 @@ def main(argv=None):
     levels = mod.levels(tier)
     if tier == "thorough":
         # the thorough tier starts with every quick level it does not redefine under the same name
-        names = set(l["name"] for l in levels)
-        levels = [l for l in mod.levels("quick") if l["name"] not in names] + levels
+        quick = mod.levels("quick")
+        qnames = set(l["name"] for l in quick)
+        deeper = []
+        for l in levels:
+            if l["name"] in qnames:
+                l = dict(l)
+                l["name"] = l["name"] + "+"     # a deeper variant of a quick level never replaces it
+            deeper.append(l)
+        levels = quick + deeper
     if args.level:
-        levels = [l for l in levels if l["name"] == args.level]
+        levels = [l for l in levels if l["name"] in args.level.split(",")]
     total_budget = args.budget or (float(os.environ.get("SYMX_BUDGET", 0)) or (170.0 if tier == "quick" else 1200.0))
 
     print("[%s] tier=%s seed=%d levels=%s repo=%s" % (prop, tier, seed, [l["name"] for l in levels], REPO))
